@@ -30,6 +30,10 @@ NOTES = {
  "C05b": "round 2; first missed; rule C05 R8 (variant filters in the decryption walker name all four string-bearing variants) added",
  "C08b": "round 2; caught by C08 R5 as first written (growth of the limited reader dominated by its limit test)",
  "C09b": "round 2; first missed; rule C09 G1 (Reference arms format number and generation) added",
+ "C01b": "round 2; first missed; rule C01 R8 (offset index on a range-loop variable needs its own guard) added",
+ "C03b": "round 2; first missed by C03 (reported by C05 R3); C03 R7 now reports the C05 R3 layering rule as a structural-validity clause",
+ "C06b": "round 2; NOT caught and not claimed: the change moves the boundary of the Algorithm 2.B termination test (`<=` to `<`) — a value-level detail of a cryptographic routine, the kind of clause §6 declares out of reach (C23); a rule on the operator would also fire on equivalent rewritings (`last + 32 <= round`), so none was added",
+ "C07b": "round 2; first missed; rule C07 R6 (LZW code width increments are capped at 12) added",
  "C11b": "round 2; first missed; rule C11 R7 (fonts are installed under their resource name unconditionally) added",
 }
 for d in sorted(glob.glob(S + '/C*')):
